@@ -46,6 +46,7 @@ Chain(nt) ==
     [] nt = "star_target_elt" -> "star_target"
     [] nt = "star_target" -> "t_atom"
     [] nt = "del_target" -> "t_atom"
+    [] nt = "target_with_star_atom" -> "t_atom"
     (* patterns *)
     [] nt = "patterns" -> "pattern"
     [] nt = "maybe_star" -> "pattern"
@@ -55,13 +56,13 @@ Chain(nt) ==
 
 Prod(nt) ==
   CASE nt = "assign_rhs" -> {"Yield", "Yield0", "YieldFrom"}
-    [] nt = "star_expressions" -> {"Tuple"}
+    [] nt = "star_expressions" -> {"Tuple", "Starred"}
     [] nt = "star_expression" -> {"Starred"}
     [] nt = "star_named_expression" -> {"Starred"}
     [] nt = "named_expression" -> {"NamedExpr"}
     [] nt = "args_item" -> {"Starred", "StarredOr"}
     [] nt = "slices" -> {"Tuple", "Slice"}
-    [] nt = "slice_item" -> {"Slice", "Starred"}
+    [] nt = "slice_item" -> {"Slice", "Starred", "StarredOr"}
     [] nt = "subject_expr" -> {"Tuple"}
     [] nt = "expression" -> TestKinds
     [] nt = "disjunction" -> {"Or"}
@@ -80,8 +81,9 @@ Prod(nt) ==
     [] nt = "primary" -> PrimKinds
     [] nt = "atom" -> AtomKinds
     [] nt = "star_targets" -> {"Tuple"}
-    [] nt = "star_target_elt" -> {"Starred"}
-    [] nt = "t_atom" -> {"Name", "Attribute", "Subscript", "List"}
+    [] nt = "star_target_elt" -> {}
+    [] nt = "star_target" -> {"Starred"}
+    [] nt = "t_atom" -> {"Name", "Attribute", "Subscript", "List", "Tuple0"}
     [] nt = "single_target" -> {"Name", "Attribute", "Subscript"}
     [] nt = "name_only" -> {"Name"}
     [] nt = "name_or_attr" -> {"Name", "Attribute"}
@@ -111,10 +113,11 @@ Produce == /\ res = "run" /\ child \in Prod(cur) /\ ~Lexical(slot, child)
 LexicalPars == /\ res = "run" /\ child \in Prod(cur) /\ Lexical(slot, child)
                /\ res' = "pars" /\ UNCHANGED <<slot, child, cur>>
 (* '*' bitwise_or where the child is '*' disjunction: the star is produced here, its operand needs a group *)
-InnerGroup == /\ res = "run" /\ child = "StarredOr" /\ child \notin Prod(cur) /\ "Starred" \in Prod(cur)
+StarOperandTooLow == child = "StarredOr" /\ child \notin Prod(cur) /\ "Starred" \in Prod(cur) /\ SlotCls(slot) = "load"
+InnerGroup == /\ res = "run" /\ StarOperandTooLow
               /\ res' = "inner" /\ UNCHANGED <<slot, child, cur>>
 Descend == /\ res = "run" /\ child \notin Prod(cur) /\ Chain(cur) # "none"
-           /\ ~(child = "StarredOr" /\ "Starred" \in Prod(cur))
+           /\ ~StarOperandTooLow
            /\ cur' = Chain(cur) /\ UNCHANGED <<slot, child, res>>
 Group == /\ res = "run" /\ child \notin Prod(cur) /\ Bottom(cur) /\ Groupable(cur, child)
          /\ res' = "pars" /\ UNCHANGED <<slot, child, cur>>
@@ -138,11 +141,11 @@ TypeOK       == /\ res \in {"run", "bare", "pars", "inner", "invalid"}
                 /\ (SlotCls(slot) = "pat" => NT(slot) \in PatNTs)
                 /\ (child \in ExprKinds => Level(child) >= 0) /\ (child \in PatKinds => PLevel(child) >= 0)
 
-(* ladder laws, evaluated for the current slot against every kind            *)
-Monotone == SlotCls(slot) = "load" =>
+(* ladder laws, for every slot against every kind (ASSUME: checked once)           *)
+Monotone(slot_) == SlotCls(slot_) = "load" =>
   \A c1, c2 \in ExprKinds \ TopKinds :
-     (Level(c1) <= Level(c2) /\ ~NeedsPars(slot, c1) /\ ~Lexical(slot, c2)) => ~NeedsPars(slot, c2)
-AtomsNeverNeed == \A c \in AtomKinds : Valid(slot, c) /\ ~Lexical(slot, c) => ~NeedsPars(slot, c)
+     (Level(c1) <= Level(c2) /\ ~NeedsPars(slot_, c1) /\ ~Lexical(slot_, c2)) => ~NeedsPars(slot_, c2)
+AtomsNeverNeed(slot_) == \A c \in AtomKinds : Valid(slot_, c) /\ ~Lexical(slot_, c) => ~NeedsPars(slot_, c)
 (* left associativity: an operator is its own left operand without parentheses and never its own right      *)
 (* operand; `**` is the mirror image; comparisons and BoolOps never nest bare (chains / flattening)          *)
 Assoc == \A op \in BinOps :
@@ -154,7 +157,8 @@ NoNest == /\ \A c \in CmpKinds : NeedsPars("Compare.left", c) /\ NeedsPars("Comp
           /\ ~NeedsPars("UnaryOp.Not.operand", "Not") /\ ~NeedsPars("UnaryOp.USub.operand", "USub")
           /\ NeedsPars("BinOp.Pow.left", "USub") /\ ~NeedsPars("BinOp.Pow.right", "USub")
           /\ ~NeedsPars("UnaryOp.USub.operand", "Pow") /\ NeedsPars("Await.value", "Await")
-Laws == Monotone /\ AtomsNeverNeed /\ Assoc /\ NoNest
+ASSUME LawsHold == /\ \A s \in SlotIds : Monotone(s) /\ AtomsNeverNeed(s)
+                   /\ Assoc /\ NoNest
 MLLaw == \A d \in 0..2, ml \in BOOLEAN, se \in BOOLEAN :
            NeedsParsML(d, ml, se) = (ml /\ ~se /\ d = 0)
 
